@@ -2,6 +2,7 @@
 
     ops:
       add <pool idx> <names overridden?> <expiry overridden?> <fp> <exp> <name>...   (effective parse result)
+      idna <name> <ascii>                      (oracle row: idna::domain_to_ascii of a name that is not plain ASCII)
       addbad                                   (unparsable certificate)
       del <fp>
       rep <pool idx> <ovn> <ove> <fp> <exp> <old parsable?> <old fp> <name>...
@@ -21,41 +22,53 @@ Definition no_re_match (_ _ : bytes) : bool := false.
 Definition bytes_of (ts : list tok) : list bytes :=
   flat_map (fun t => match t with TB b => [b] | _ => [] end) ts.
 
-Definition step (r : resolver) (op : list tok) : resolver * list tok :=
-  let bad := (r, [TS "badop"]) in
+Record rstate := mkr { r_res : resolver; r_idna : list (bytes * bytes) }.
+
+Definition norm_of (tab : list (bytes * bytes)) (n : bytes) : bytes :=
+  match aget n tab with Some a => a | None => map lower n end.
+
+Definition step (st : rstate) (op : list tok) : rstate * list tok :=
+  let r := r_res st in
+  let wr (x : resolver * list tok) : rstate * list tok := (mkr (fst x) (r_idna st), snd x) in
+  let bad := (st, [TS "badop"]) in
   match op with
   | TS name :: args =>
-    if name =? "add" then
+    if name =? "idna" then
       match args with
-      | TN _ :: TN _ :: TN _ :: TB fp :: TN exp :: names =>
-        (add_cert no_re_ok r (parsed_cert fp (bytes_of names) exp), [TS "ok"; TB fp])
+      | [TB n; TB a] => (mkr r (r_idna st ++ [(n, a)]), [])
       | _ => bad
       end
-    else if name =? "addbad" then (r, [TS "err"])
+    else if name =? "add" then
+      match args with
+      | TN _ :: TN _ :: TN _ :: TB fp :: TN exp :: names =>
+        wr (add_cert no_re_ok r (parsed_cert_with (norm_of (r_idna st)) fp (bytes_of names) exp), [TS "ok"; TB fp])
+      | _ => bad
+      end
+    else if name =? "addbad" then (st, [TS "err"])
     else if name =? "del" then
       match args with
-      | [TB fp] => (remove_cert no_re_ok r fp, [TS "ok"])
+      | [TB fp] => wr (remove_cert no_re_ok r fp, [TS "ok"])
       | _ => bad
       end
     else if name =? "rep" then
       match args with
       | TN _ :: TN _ :: TN _ :: TB fp :: TN exp :: TN oldk :: TB old :: names =>
-        let '(r', _) := replace_cert no_re_ok r (Some (parsed_cert fp (bytes_of names) exp))
+        let '(r', _) := replace_cert no_re_ok r (Some (parsed_cert_with (norm_of (r_idna st)) fp (bytes_of names) exp))
                                      (if (oldk =? 1)%Z then Some old else None) in
-        (r', [TS "ok"; TB fp])
+        wr (r', [TS "ok"; TB fp])
       | _ => bad
       end
-    else if name =? "repbad" then (r, [TS "err"])
+    else if name =? "repbad" then (st, [TS "err"])
     else if name =? "sni" then
       match args with
       | [TB n] =>
         match resolve no_re_match r n with
         | Some (key, fp) =>
           match aget fp (store r) with
-          | Some c => (r, TS "fp" :: TB fp :: TB key :: map TB (c_names c))
-          | None => (r, [TS "dangling"; TB fp])
+          | Some c => (st, TS "fp" :: TB fp :: TB key :: map TB (c_names c))
+          | None => (st, [TS "dangling"; TB fp])
           end
-        | None => (r, [TS "none"])
+        | None => (st, [TS "none"])
         end
       | _ => bad
       end
@@ -63,8 +76,8 @@ Definition step (r : resolver) (op : list tok) : resolver * list tok :=
       match args with
       | TB a :: names =>
         match authority_matched a (bytes_of names) with
-        | Some e => (r, [TS "some"; TB e])
-        | None => (r, [TS "none"])
+        | Some e => (st, [TS "some"; TB e])
+        | None => (st, [TS "none"])
         end
       | _ => bad
       end
@@ -72,10 +85,10 @@ Definition step (r : resolver) (op : list tok) : resolver * list tok :=
   | _ => bad
   end.
 
-Fixpoint run_from (r : resolver) (ops : list (list tok)) : list (list tok) :=
+Fixpoint run_from (r : rstate) (ops : list (list tok)) : list (list tok) :=
   match ops with
   | [] => []
   | op :: ops' => let '(r', o) := step r op in o :: run_from r' ops'
   end.
 
-Definition run_case (ops : list (list tok)) : list (list tok) := run_from empty_resolver ops.
+Definition run_case (ops : list (list tok)) : list (list tok) := run_from (mkr empty_resolver []) ops.
